@@ -64,6 +64,7 @@ def monitors_child(rec):
     warnings.simplefilter('ignore')
     rng = random.Random(rec.seed + 14)
     quick = rec.tier == 'quick'
+    DD = child.Distinct().wrap(D, 'var2h')
     ev = 0; bad = 0
     tzs = [None, 'UTC']
     for cand in ('Australia/Sydney', 'Etc/GMT-10'):
@@ -119,4 +120,4 @@ def monitors_child(rec):
             break
     rec.bounded_clause('var2h (python wrapper): every value missing or the exact period average / total (rational oracle), result independent of the storage unit (ns, us, ms, s) and of the time zone of the index',
                        '%d irregular series of 2..20 observations (steps 0 s .. 2.5 h, values incl. negative and NaN) x periods 1800 / 3600 x rainfall flag x 3 maxgapsec x 4 units x %d time zones' % (120 if quick else 1500, len(tzs)),
-                       ev, ev, False, bad)
+                       ev, DD.n('var2h'), False, bad)
